@@ -9,7 +9,7 @@ from .. import core, gen, hist, model, peers
 from ..session import Outcome
 from . import PropBase, steps_with_ids
 
-FAULTS = ("clear", "clear_typing", "twin", "peer_failure", "shrink", "stack", "exhaust_scan", "mutate_result")
+FAULTS = ("clear", "clear_typing", "twin", "peer_failure", "shrink", "stack", "exhaust_scan", "mutate_result", "reload")
 PEERS = ("default", "json", "tag")
 
 
@@ -88,6 +88,19 @@ class C02(PropBase):
                 steps.append(hist.fault_step(rng, rng.choice(fk), steps))
                 continue
             t, vals = rng.choice(pool)
+            if "reload" in sw and t["k"] == "ref" and not _is_bytes_t(t) and rng.random() < 0.5:
+                # the hint is a typing.ForwardRef naming the class; the modules are executed again in between (a class
+                # defined again under its old name): an equal reference now names the new class, for every entry point
+                fr = {"k": "fref", "s": t["n"], "m": t["m"]}
+                peer = rng.choice(PEERS)
+                for rep in range(2):
+                    if rep:
+                        steps.append({"op": "reload"})
+                        codecs = []
+                    if rng.random() < 0.5:
+                        steps.append({"op": "codec_get", "t": fr, "peer": peer, "mod": t["m"]})
+                    steps.append({"op": "agree", "t": fr, "v": copy.deepcopy(rng.choice(vals)), "peer": peer, "mod": t["m"], "fresh_t": True})
+                continue
             if "twin" in sw and rng.random() < 0.3:
                 tw = hist.order_preserving_twins(rng, t)
                 if tw:
@@ -133,6 +146,14 @@ class C02(PropBase):
         import typelib
 
         op = step["op"]
+        if op == "reload":
+            # the world's modules are executed again: new classes under the old names (codecs held from before
+            # are for the old classes and are dropped; values are instances of the new ones from now on)
+            sess.world.reload()
+            sess.results.clear()
+            sess.faults["reload"] += 1
+            sess.fault_fired_before = True
+            return Outcome(True, "reloaded")
         if op == "codec_get":
             T = sess.T(step)
             _, _, enc, dec = self._peer_fns(step["peer"])
@@ -162,8 +183,12 @@ class C02(PropBase):
             rec["stale"] = True
             sess.probes["stale_codec_handle_used"] += 1
 
+        # (a reference hint is written anew for every call: a reference object remembers what it was evaluated to,
+        #  and an entry point must not depend on another one having evaluated the caller's object before)
+        TT = (lambda: sess.T(step)) if (step["t"]["k"] == "fref" and step.get("fresh_t")) else (lambda: T)
+
         def get_codec():
-            return handle if handle is not None else typelib.codec(T, **kw_c)
+            return handle if handle is not None else typelib.codec(TT(), **kw_c)
 
         # ---- peer failure (F11): the exception surfaces unchanged; the next identical call succeeds
         fail = step.get("fail") if not _is_bytes_t(step["t"]) else None  # bytes-like T never reaches a peer
@@ -182,10 +207,10 @@ class C02(PropBase):
                     rec["viol"].append(("peer-failure-poisoned", {"side": "enc", "after": repr(outs[-1])[:160], "healthy": repr(ref)[:160]}))
 
         # ---- encode through the three entry points
-        e1 = sess.guarded(sess.call, step, typelib.encode, v, t=T, **kw_e)
+        e1 = sess.guarded(sess.call, step, typelib.encode, v, t=TT(), **kw_e)
         e2 = sess.guarded(sess.call, step, lambda: get_codec().encode(v))
-        e3 = sess.guarded(sess.call, step, lambda: (_identity if _is_bytes_t(step["t"]) else enc_f)(typelib.marshal(v, t=T)))
-        m = sess.guarded(sess.call, step, typelib.marshal, v, t=T)
+        e3 = sess.guarded(sess.call, step, lambda: (_identity if _is_bytes_t(step["t"]) else enc_f)(typelib.marshal(v, t=TT())))
+        m = sess.guarded(sess.call, step, typelib.marshal, v, t=TT())
         rec["enc"] = (e1, e2, e3)
         rec["marshal"] = m
         # the hint is optional: omitted, it is the value's own class
@@ -206,11 +231,18 @@ class C02(PropBase):
                 bad = outs[fail["k"] - 1]
                 if bad.ok or not isinstance(bad.exc, peers.PeerFailure):
                     rec["viol"].append(("peer-failure-swallowed", {"side": "dec", "got": repr(bad)[:160]}))
-            d1 = sess.guarded(sess.call, step, typelib.decode, T, b, **kw_d)
+            d1 = sess.guarded(sess.call, step, typelib.decode, TT(), b, **kw_d)
             d2 = sess.guarded(sess.call, step, lambda: get_codec().decode(b))
-            d3 = sess.guarded(sess.call, step, lambda: typelib.unmarshal(T, (_identity if _is_bytes_t(step["t"]) else dec_f)(b)))
+            d3 = sess.guarded(sess.call, step, lambda: typelib.unmarshal(TT(), (_identity if _is_bytes_t(step["t"]) else dec_f)(b)))
             rec["dec"] = (d1, d2, d3)
             dec_out = d2
+            if step["t"]["k"] == "fref" and step["t"].get("m"):
+                # what the reference names *now* is what is built, whichever entry point is used
+                cur = sess.world.obj(step["t"]["m"], step["t"]["s"])
+                if isinstance(cur, type) and not issubclass(cur, dict):
+                    for name, d in (("top", d1), ("codec", d2), ("compose", d3)):
+                        if d.ok and type(d.value) is not cur and type(d.value).__qualname__ == cur.__qualname__:
+                            rec["viol"].append(("decoded-instance-of-a-former-class", {"side": name, "cls": cur.__qualname__}))
             if step.get("mutate_decoded") and d2.ok and not _is_bytes_t(step["t"]):  # (a payload carried verbatim is the result itself)
                 before = d2.canon()
                 touched = model.deep_mutate(d2.value, core.rng_for(sess.seed, f"c02m{i}"))
@@ -288,7 +320,7 @@ class C02(PropBase):
             if not (d2.ok and bytes(d2.value) == bytes(rec["v"])):
                 sess.violation("bytes-not-verbatim", i, {"t": tsrc, "got": repr(d2)[:100]}, sig="bytes-not-verbatim:decode")
             return
-        if "union" in kinds or "lit" in {n["k"] for n in model.twalk(step["t"])}:
+        if "union" in kinds or "lit" in {n["k"] for n in model.twalk(step["t"])} or ("lit" in kinds):
             return
         if not d2.ok:
             sess.violation("decode-raised", i, {"t": tsrc, "exc": f"{type(d2.exc).__name__}: {d2.exc}"[:200]}, sig=f"decode-raised:{type(d2.exc).__name__}{tag}")
